@@ -51,6 +51,8 @@ class Ctx(object):
             self.trace.append(line)
 
     def digest(self):
+        if getattr(self, "_digest_override", None):
+            return self._digest_override
         return self._h.hexdigest()
 
     # -- counters ----------------------------------------------------------
@@ -109,6 +111,9 @@ class Ctx(object):
         c.bigrams = set(res["bigrams"])
         c.judged = res["judged"]
         c.sim_seconds = res["sim_seconds"]
+        if not lines:
+            c._digest_override = res["digest"]
+            c.n_events = res.get("events", 0)
         return c
 
     def result(self):
